@@ -212,13 +212,14 @@ func (s String) ReverseGraphemes() String {
 }
 
 func (s String) RJust(targetLen int, padding Char) String {
-	if len(s) >= targetLen {
+	length := s.CharCount()
+	if length >= targetLen {
 		return s
 	}
 
 	var buff strings.Builder
 
-	for range targetLen - len(s) {
+	for range targetLen - length {
 		buff.WriteRune(padding.Rune())
 	}
 
@@ -228,14 +229,15 @@ func (s String) RJust(targetLen int, padding Char) String {
 }
 
 func (s String) LJust(targetLen int, padding Char) String {
-	if len(s) >= targetLen {
+	length := s.CharCount()
+	if length >= targetLen {
 		return s
 	}
 
 	var buff strings.Builder
 	buff.WriteString(s.String())
 
-	for range targetLen - len(s) {
+	for range targetLen - length {
 		buff.WriteRune(padding.Rune())
 	}
 
